@@ -140,7 +140,8 @@ CLAIMS = {
         'assigned address. The image side is the C03 address-to-byte map over the same sorted line list.',
    note='The token reading of the output text (sio_write) and IntelHex.puts / write_hex_file / dump are trusted, backed by a BOUNDED stand-in that assembles a fixed family of programs '
         'with the real CLI and decodes all four formats back to address-to-byte maps (equal to each other and to the image); the listing\'s row-splitting '
-        'helper (_generate_bytecode_line_string) is under a verified contract for "a fresh list, empty exactly for no bytes" (loop invariant, no string reasoning); '
+        'helper (_generate_bytecode_line_string) is under a verified contract for "a fresh list of ceil(len / width) rows, empty exactly for no bytes" (loop invariant over the length of the row being filled; '
+        'trusted: f\'{b:02x}\' of a byte value has two characters); '
         'WHAT the rows render is only covered by a bounded stand-in (lengths 0..64 / 0..400 x widths 1..8); "each statement exactly once" in the listing '
         '(copy + sort with a key function) is not under contract; preconditions: lines sorted by address and non-overlapping (C04).'),
  'C17': dict(tech='contract-based deductive verification (pyvc + z3): AssemblyFile / LabelScope constructors, include handling, per-line loader block, include-directory de-duplication',
